@@ -21,6 +21,7 @@ func checkC12(c *Ctx) {
 	c.Rule("C12/R4", "the beta/t path works in the log domain: nothing reachable from the t distribution's CDF/PDF calls math.Gamma (which overflows for the degrees of freedom large samples produce)")
 
 	c.Rule("C12/R5", "returned functions are re-entrant: no closure created in internal/stats writes a variable it captured (an inverse CDF that keeps its bracketing step between calls drifts to ±Inf after enough calls)")
+	c.Rule("C12/R8", "order statistics do not reorder their argument: inside a value-receiver method of Sample every sort acts on a copy of the values (Copy(), a made or appended-to-nil slice)")
 	c.Rule("C12/R7", "the geometric means accumulate in the log domain: no loop-carried value in stats.GeoMean / Sample.GeoMean is multiplied by a raw data element on each iteration")
 	c.Rule("C12/R6", "no 0/0 variance: every division by len(x)-1 in internal/stats is reached only when len(x) >= 2 (a singleton's variance is 0, which the t-tests' zero-variance guard turns into an error; NaN would slip through it)")
 	p := mustLoad(c, loadOpts{}, "./internal/stats")
@@ -33,6 +34,7 @@ func checkC12(c *Ctx) {
 	c12Closures(c, p)
 	c12LenMinusOne(c, p)
 	c12GeoMean(c, p, "C12/R7")
+	c12NoReorder(c, p, "C12/R8")
 }
 
 // c12GeoMean: the geometric mean accumulates in the log domain. A loop-carried float that is multiplied by a raw element
@@ -1182,4 +1184,72 @@ func ratOfValue(v ssa.Value, leaf func(ssa.Value) (string, bool), pt map[string]
 		}
 	}
 	return nil, "operand " + v.Name() + " (" + v.String() + ") is not an arithmetic expression of the inputs"
+}
+
+// c12NoReorder: an order statistic leaves its argument's values where they are. A Sample method with a value receiver gets
+// a copy of the struct, not of the values: sorting "its own" Xs sorts the caller's slice. Every sort inside such a method
+// acts on the result of Copy().
+func c12NoReorder(c *Ctx, p *Prog, R string) {
+	n := 0
+	for _, fn := range p.Funcs("internal/stats") {
+		recv := fn.Signature.Recv()
+		if recv == nil || recvName(recv.Type()) != "Sample" || fn.Name() == "Sort" || fn.Name() == "Copy" {
+			continue
+		}
+		if _, isPtr := recv.Type().(*types.Pointer); isPtr {
+			continue // a pointer receiver says it may modify the sample
+		}
+		k := 0
+		eachInstr(fn, func(_ *ssa.BasicBlock, in ssa.Instruction) {
+			call, ok := in.(*ssa.Call)
+			if !ok {
+				return
+			}
+			sorts := false
+			var target ssa.Value
+			if sc := call.Call.StaticCallee(); sc != nil && sc.Name() == "Sort" && sc.Signature.Recv() != nil && recvName(sc.Signature.Recv().Type()) == "Sample" {
+				sorts, target = true, call.Call.Args[0]
+			}
+			if cc, ok := ascendingSortCall(in); ok {
+				sorts, target = true, cc.Args[0]
+			}
+			if !sorts {
+				return
+			}
+			n++
+			k++
+			onCopy := false
+			var walk func(v ssa.Value, d int)
+			walk = func(v ssa.Value, d int) {
+				if d > 6 || v == nil {
+					return
+				}
+				switch x := v.(type) {
+				case *ssa.Call:
+					if sc := x.Call.StaticCallee(); sc != nil && sc.Name() == "Copy" {
+						onCopy = true
+					}
+					if bi, ok := x.Call.Value.(*ssa.Builtin); ok && bi.Name() == "append" {
+						// append([]float64(nil), xs...): a fresh slice
+						if k, ok := x.Call.Args[0].(*ssa.Const); ok && k.IsNil() {
+							onCopy = true
+						}
+					}
+				case *ssa.MakeSlice:
+					onCopy = true
+				case *ssa.UnOp:
+					walk(x.X, d+1)
+				case *ssa.FieldAddr:
+					walk(x.X, d+1)
+				case *ssa.Phi:
+					for _, e := range x.Edges {
+						walk(e, d+1)
+					}
+				}
+			}
+			walk(target, 0)
+			c.Check(onCopy, R, fmt.Sprintf("%s:sort#%d", fnName(fn), k), p.pos(call.Pos()), "sorts a copy", "a method with a value receiver sorts the sample it was given: the receiver is a copy of the struct but shares the values' backing array, so the caller's measurements are reordered in place — the legacy tables then report the retained values in ascending instead of input order")
+		})
+	}
+	c.Floor(R, "sorts inside value-receiver methods of Sample", n, 1)
 }
